@@ -295,7 +295,11 @@ func flush(r *hx.Run, batch []kase) {
 					return
 				}
 				for j := i; j < i+256 && j < len(batch); j++ {
-					out[j] = res{opLine(batch[j]), run(batch[j].data, batch[j].sizes)}
+					impl := run(batch[j].data, batch[j].sizes)
+					if m := stdlibCheck(batch[j].data, batch[j].sizes); m != "" {
+						impl += " " + m // a clause of the standard-library contract failed on these reads
+					}
+					out[j] = res{opLine(batch[j]), impl}
 				}
 			}
 		}()
@@ -643,7 +647,11 @@ func runC02(r *hx.Run) error {
 			if !ok {
 				return "", false
 			}
-			return run(k.data, k.sizes), true
+			impl := run(k.data, k.sizes)
+			if m := stdlibCheck(k.data, k.sizes); m != "" {
+				impl += " " + m
+			}
+			return impl, true
 		})
 	}
 	splitsReplacementChar = runOnce([]byte("\xef\xbf\xbd"), nil) != "P:fffd Z"
@@ -826,5 +834,8 @@ func runC02(r *hx.Run) error {
 	r.Add("cluster-oracle-hypothesis-broken", int(oracleBroken))
 	r.Add("oracle-joins-c0", int(oracleJoinsC0))
 	r.Add("oracle-joins-invalid-byte", int(oracleJoinsInvalid))
+	// Model/ParserStdlib.lean : StdlibContract against the real unicode/utf8 and bufio.Reader (stdlibcontract.go)
+	r.Add("stdlib-contract-checked", int(stdlibChecked))
+	r.Add("stdlib-contract-broken", int(stdlibBroken))
 	return nil
 }
